@@ -1,11 +1,46 @@
 /-
   Driver.Main — `fcdrv`: one case per input line, one reply per line.
+  The first token selects the operation; each property's operations live in Driver/Ops<Cxx>.lean.
 -/
 import Driver.OpsA
+import Driver.OpsC02
+import Driver.OpsC03
+import Driver.OpsC04
+import Driver.OpsC05
+import Driver.OpsC06
+import Driver.OpsC07
+import Driver.OpsC08
+import Driver.OpsC11
+import Driver.OpsC12
+import Driver.OpsC13
+import Driver.OpsC14
+import Driver.OpsC15
+import Driver.OpsC16
+import Driver.OpsC17
+import Driver.OpsC18
+import Driver.OpsC19
+import Driver.OpsC20
 namespace Fc.Drv
 
 def dispatch (op : String) : Option (P String) :=
   handleA op
+    <|> handleC02 op
+    <|> handleC03 op
+    <|> handleC04 op
+    <|> handleC05 op
+    <|> handleC06 op
+    <|> handleC07 op
+    <|> handleC08 op
+    <|> handleC11 op
+    <|> handleC12 op
+    <|> handleC13 op
+    <|> handleC14 op
+    <|> handleC15 op
+    <|> handleC16 op
+    <|> handleC17 op
+    <|> handleC18 op
+    <|> handleC19 op
+    <|> handleC20 op
 
 def step (line : String) : String :=
   let toks := (line.splitOn " ").filter (· ≠ "")
